@@ -1,6 +1,6 @@
 SPECIFICATION Spec
 CONSTANTS
-  Ctors = {"par", "opt", "fn", "unionl", "unionr", "interl", "arr"}
+  Ctors = {"par", "opt", "fn", "unionl", "unionr", "interl", "arr", "leadu", "leadi"}
   MaxDepth = 4
   Positions = {"local", "decl"}
 INVARIANT Emit
